@@ -354,7 +354,7 @@ func runReplay(dir, pkgDir string) (bool, string) {
 		out = out[:4000]
 	}
 	os.WriteFile(filepath.Join(dir, "replay_output.txt"), b, 0o644)
-	return strings.Contains(out, "REPRODUCED") || realCodePanicked(string(b), root), out
+	return strings.Contains(out, "REPRODUCED") || strings.Contains(string(b), "BOUNDED-VIOLATION") || realCodePanicked(string(b), root), out
 }
 
 // realCodePanicked: the replay test died with a Go panic raised in the real code (the innermost frame inside the tree
